@@ -347,7 +347,7 @@ func (vc *VC) execBuiltin(fr *frame, n *Node, x *ssa.Call, b *ssa.Builtin) {
 				vc.defVal(n, x, sCap(a.T))
 			}
 		case *types.Basic:
-			vc.defVal(n, x, fmt.Sprintf("(str.len %s)", a.T))
+			vc.defVal(n, x, fmt.Sprintf("(strlen %s)", a.T))
 		case *types.Map:
 			vc.defVal(n, x, vc.mapLen(st, u, a.T))
 		case *types.Array:
@@ -408,19 +408,33 @@ func (vc *VC) execBuiltin(fr *frame, n *Node, x *ssa.Call, b *ssa.Builtin) {
 // copyElems: dst[doff+j] = src[soff+j] for 0 <= j < n (memmove semantics), under guard.
 func (vc *VC) copyElems(st *State, elem types.Type, dst, doff, src, soff, n, guard string) {
 	e := vc.enc
-	dbase := e.add(sOff(dst), doff)
-	sbase := e.add(sOff(src), soff)
-	vc.bulkUpdate(st, elem, []bulkCase{{
+	vc.bulkUpdate(st, elem, []bulkCase{vc.rangeCase(guard, dst, doff, e.add(doff, n), func(j string, path []int, cell types.Type, mem string) string {
+		return fmt.Sprintf("(select %s %s)", mem, vc.pathPtr(e.elemPtr(src, e.add(soff, e.sub(j, doff))), path))
+	})})
+}
+
+// pathPtr: pointer to the cell at field path `path` inside the element p points to.
+func (vc *VC) pathPtr(p string, path []int) string {
+	for _, i := range path {
+		p = vc.enc.fieldPtr(p, i)
+	}
+	return p
+}
+
+// rangeCase: cells of elements lo <= j < hi of slice dst (j relative to dst's offset).
+func (vc *VC) rangeCase(guard, dst, lo, hi string, val func(j string, path []int, cell types.Type, mem string) string) bulkCase {
+	e := vc.enc
+	return bulkCase{
 		cond: func(p string, path []int) string {
-			idx := "(p.idx " + p + ")"
+			j := e.sub("(p.idx "+p+")", sOff(dst))
 			return and(guard, fmt.Sprintf("(= (p.obj %s) %s)", p, sArr(dst)), fmt.Sprintf("(= (p.fld %s) %s)", p, pathFld(sFld(dst), path)),
-				e.sle(dbase, idx), e.slt(idx, e.add(dbase, n)))
+				e.sle(lo, j), e.slt(j, hi))
 		},
 		val: func(p string, path []int, cell types.Type, mem string) string {
-			idx := "(p.idx " + p + ")"
-			return fmt.Sprintf("(select %s %s)", mem, mkPtr(sArr(src), e.add(sbase, e.sub(idx, dbase)), pathFld(sFld(src), path)))
+			j := e.sub("(p.idx "+p+")", sOff(dst))
+			return val(j, path, cell, mem)
 		},
-	}})
+	}
 }
 
 func (vc *VC) execAppend(fr *frame, n *Node, x *ssa.Call, args []Val) {
@@ -431,7 +445,7 @@ func (vc *VC) execAppend(fr *frame, n *Node, x *ssa.Call, args []Val) {
 	var tl string
 	if isString(t.Typ) {
 		// append([]byte, string...): contents abstract
-		tl = fmt.Sprintf("(str.len %s)", t.T)
+		tl = fmt.Sprintf("(strlen %s)", t.T)
 		vc.enc.notes["append([]byte, string...): appended bytes abstract"] = true
 	} else {
 		tl = sLen(t.T)
@@ -442,56 +456,56 @@ func (vc *VC) execAppend(fr *frame, n *Node, x *ssa.Call, args []Val) {
 	st.wm = obj
 	newCap := vc.decl("app.cap", e.I())
 	vc.assume(and(e.sle(newLen, newCap), e.sle(newCap, e.ilit(1<<40))))
-	z := e.ilit(0)
-	// appending nothing to a nil slice yields nil
-	res := vc.def(x.Name(), "Slice", fmt.Sprintf("(ite %s (mk-slice %s %s %s %s %s) (mk-slice %s %s %s %s 0))",
-		inPlace, sArr(s.T), sOff(s.T), newLen, sCap(s.T), sFld(s.T), obj, z, newLen, newCap))
-	vc.bind(n, x, res)
-	if isString(t.Typ) {
-		// havoc the byte memory region (sound over-approximation: fresh memory version equal outside the appended range)
-		vc.bulkUpdate(st, elem, []bulkCase{
-			{cond: func(p string, path []int) string {
-				idx := "(p.idx " + p + ")"
-				return and(fmt.Sprintf("(= (p.obj %s) %s)", p, sArr(res)), e.sle(e.add(sOff(res), sLen(s.T)), idx), e.slt(idx, e.add(sOff(res), newLen)))
-			}, val: func(p string, path []int, cell types.Type, mem string) string {
-				return e.uf("append.str.byte", []string{"Str", e.I()}, e.sortOf(cell), t.T, e.sub("(p.idx "+p+")", e.add(sOff(res), sLen(s.T))))
-			}},
-			{cond: func(p string, path []int) string {
-				idx := "(p.idx " + p + ")"
-				return and(not(inPlace), fmt.Sprintf("(= (p.obj %s) %s)", p, obj), e.sle(z, idx), e.slt(idx, sLen(s.T)))
-			}, val: func(p string, path []int, cell types.Type, mem string) string {
-				return fmt.Sprintf("(select %s %s)", mem, mkPtr(sArr(s.T), e.add(sOff(s.T), "(p.idx "+p+")"), pathFld(sFld(s.T), path)))
-			}},
-		})
-		return
+	// read the appended elements before memory changes (single-element fast path)
+	single := tl == "1"
+	var v0 string
+	if single {
+		v0 = vc.def("app.v", e.sortOf(elem), vc.load(st, e.elemPtr(t.T, "0"), elem))
 	}
-	// single-element fast path: t is a one-element slice => plain stores when in place
-	rbase := e.add(sOff(res), sLen(s.T))
-	tbase := sOff(t.T)
-	vc.bulkUpdate(st, elem, []bulkCase{
-		{ // appended elements
-			cond: func(p string, path []int) string {
-				idx := "(p.idx " + p + ")"
-				return and(fmt.Sprintf("(= (p.obj %s) %s)", p, sArr(res)), fmt.Sprintf("(= (p.fld %s) %s)", p, pathFld(sFld(res), path)),
-					e.sle(rbase, idx), e.slt(idx, e.add(rbase, tl)))
-			},
-			val: func(p string, path []int, cell types.Type, mem string) string {
-				idx := "(p.idx " + p + ")"
-				return fmt.Sprintf("(select %s %s)", mem, mkPtr(sArr(t.T), e.add(tbase, e.sub(idx, rbase)), pathFld(sFld(t.T), path)))
-			},
-		},
-		{ // copied prefix on reallocation
-			cond: func(p string, path []int) string {
-				idx := "(p.idx " + p + ")"
-				return and(not(inPlace), fmt.Sprintf("(= (p.obj %s) %s)", p, obj), fmt.Sprintf("(= (p.fld %s) %s)", p, pathFld("0", path)),
-					e.sle(z, idx), e.slt(idx, sLen(s.T)))
-			},
-			val: func(p string, path []int, cell types.Type, mem string) string {
-				idx := "(p.idx " + p + ")"
-				return fmt.Sprintf("(select %s %s)", mem, mkPtr(sArr(s.T), e.add(sOff(s.T), idx), pathFld(sFld(s.T), path)))
-			},
-		},
+	fresh := fmt.Sprintf("(mk-slice %s 0 %s %s 0)", obj, newLen, newCap)
+	inpl := fmt.Sprintf("(mk-slice %s %s %s %s %s)", sArr(s.T), sOff(s.T), newLen, sCap(s.T), sFld(s.T))
+	res := vc.def(x.Name(), "Slice", fmt.Sprintf("(ite %s %s %s)", inPlace, inpl, fresh))
+	vc.bind(n, x, res)
+	// prefix copy on reallocation
+	prefix := vc.rangeCase(not(inPlace), fresh, "0", sLen(s.T), func(j string, path []int, cell types.Type, mem string) string {
+		return fmt.Sprintf("(select %s %s)", mem, vc.pathPtr(e.elemPtr(s.T, j), path))
 	})
+	pre := st.clone()
+	defer vc.appendPrefixLemma(pre, st, elem, s.T, res)
+	switch {
+	case isString(t.Typ):
+		vc.bulkUpdate(st, elem, []bulkCase{
+			vc.rangeCase("true", res, sLen(s.T), newLen, func(j string, path []int, cell types.Type, mem string) string {
+				return e.uf("append.str.byte", []string{"Str", e.I()}, e.sortOf(cell), t.T, e.sub(j, sLen(s.T)))
+			}), prefix})
+	case single:
+		vc.bulkUpdate(st, elem, []bulkCase{prefix})
+		vc.store(st, e.elemPtr(res, sLen(s.T)), elem, v0)
+	default:
+		vc.bulkUpdate(st, elem, []bulkCase{
+			vc.rangeCase("true", res, sLen(s.T), newLen, func(j string, path []int, cell types.Type, mem string) string {
+				return fmt.Sprintf("(select %s %s)", mem, vc.pathPtr(e.elemPtr(t.T, e.sub(j, sLen(s.T))), path))
+			}), prefix})
+	}
+}
+
+// appendPrefixLemma states, in idx-triggered form, a consequence of the definition of
+// append: the first len(s) elements of the result equal the elements of s. It is
+// redundant (implied by the bulk definition) and only helps quantifier instantiation.
+func (vc *VC) appendPrefixLemma(pre, post *State, elem types.Type, s, res string) {
+	e := vc.enc
+	var cells []leafCell
+	leafCells(elem, nil, &cells)
+	var eqs []string
+	for _, c := range cells {
+		if _, isArr := c.typ.Underlying().(*types.Array); isArr {
+			return
+		}
+		a := fmt.Sprintf("(select %s %s)", vc.memAt(post, c.typ), vc.pathPtr(e.elemPtr(res, "j"), c.path))
+		b := fmt.Sprintf("(select %s %s)", vc.memAt(pre, c.typ), vc.pathPtr(e.elemPtr(s, "j"), c.path))
+		eqs = append(eqs, fmt.Sprintf("(= %s %s)", a, b))
+	}
+	vc.emit(fmt.Sprintf("(assert (forall ((j Int)) (! (=> (and (<= 0 j) (< j %s)) %s) :pattern (%s))))", sLen(s), and(eqs...), e.elemPtr(res, "j")))
 }
 
 // ---- spec functions ----
@@ -544,8 +558,8 @@ func (c *SpecCtx) applySpec(sf *SpecFunc, argExprs []Expr) Val {
 		t := enc.uf(name, sorts, enc.sortOf(rt), ts...)
 		return Val{T: t, Typ: rt}
 	}
-	if sf.Decreases != nil {
-		return c.applyRecSpec(sf, args, rt)
+	if !specMacroMode || sf.Decreases != nil {
+		return c.applyFnSpec(sf, args, rt)
 	}
 	// macro expansion
 	saved := c.bound
@@ -563,9 +577,14 @@ func (c *SpecCtx) applySpec(sf *SpecFunc, argExprs []Expr) Val {
 	return Val{T: v.T, Typ: rt}
 }
 
-// applyRecSpec: recursive spec function as define-fun-rec; memories it reads become
+// specMacroMode: expand non-recursive spec functions inline (used when searching for
+// counterexamples); otherwise every spec function is an SMT function with a
+// definitional axiom, which keeps proofs by congruence cheap.
+var specMacroMode = false
+
+// applyFnSpec: spec function as an SMT function; the memories it reads become
 // extra parameters so that it can be applied in any state.
-func (c *SpecCtx) applyRecSpec(sf *SpecFunc, args []Val, rt types.Type) Val {
+func (c *SpecCtx) applyFnSpec(sf *SpecFunc, args []Val, rt types.Type) Val {
 	enc := c.enc()
 	vc := c.vc
 	name := "spec." + sf.Name
@@ -573,31 +592,53 @@ func (c *SpecCtx) applyRecSpec(sf *SpecFunc, args []Val, rt types.Type) Val {
 	if !ok {
 		info = &recSpecInfo{}
 		vc.recSpecs[sf.Name] = info
-		// evaluate the body in a state whose memories are formal parameters
-		formalSt := &State{mem: map[string]string{}, wm: "wm.formal", epoch: &Epoch{kind: "formal", resolved: map[string]string{}}}
-		var pdecls []string
-		nb := map[string]Val{}
-		for _, p := range sf.Params {
-			pt := c.resolveType(p.T)
-			q := "|sp." + p.Name + "|"
-			nb[p.Name] = Val{T: q, Typ: pt}
-			pdecls = append(pdecls, fmt.Sprintf("(%s %s)", q, enc.sortOf(pt)))
+		var body Val
+		var pdecls, pnames []string
+		for pass := 0; pass < 2; pass++ {
+			// evaluate the body in a state whose memories are formal parameters
+			formalSt := &State{mem: map[string]string{}, wm: "wm@entry", epoch: &Epoch{kind: "formal", resolved: map[string]string{}}}
+			if pass == 1 {
+				for _, m := range info.mems {
+					formalSt.epoch.resolved[m] = "|fm." + m + "|"
+				}
+			}
+			pdecls, pnames = nil, nil
+			nb := map[string]Val{}
+			for _, p := range sf.Params {
+				pt := c.resolveType(p.T)
+				q := "|sp." + p.Name + "|"
+				nb[p.Name] = Val{T: q, Typ: pt}
+				pdecls = append(pdecls, fmt.Sprintf("(%s %s)", q, enc.sortOf(pt)))
+				pnames = append(pnames, q)
+			}
+			sub := &SpecCtx{vc: vc, lookup: func(string) (Val, bool) { return Val{}, false }, st: formalSt, pkg: c.pkg, bound: nb}
+			info.inProgress = true
+			info.formalSt = formalSt
+			body = sub.materialize(sub.eval(sf.Body), rt)
+			info.inProgress = false
+			info.mems = sortedKeys(formalSt.epoch.resolved)
 		}
-		sub := &SpecCtx{vc: vc, lookup: func(string) (Val, bool) { return Val{}, false }, st: formalSt, pkg: c.pkg, bound: nb}
-		info.inProgress = true
-		info.formalSt = formalSt
-		body := sub.materialize(sub.eval(sf.Body), rt)
-		info.inProgress = false
-		// memories used
-		for _, m := range sortedKeys(formalSt.epoch.resolved) {
-			info.mems = append(info.mems, m)
-		}
-		var mdecls []string
+		var mdecls, msorts, mnames []string
 		for _, m := range info.mems {
-			mdecls = append(mdecls, fmt.Sprintf("(%s %s)", formalSt.epoch.resolved[m], vc.memSortByName(m, enc.mems[m])))
+			srt := vc.memSortByName(m, enc.mems[m])
+			mdecls = append(mdecls, fmt.Sprintf("(|fm.%s| %s)", m, srt))
+			msorts = append(msorts, srt)
+			mnames = append(mnames, "|fm."+m+"|")
 		}
-		decl := fmt.Sprintf("(define-fun-rec %s (%s) %s %s)", name, strings.Join(append(mdecls, pdecls...), " "), enc.sortOf(rt), body.T)
-		enc.addPre("recspec:"+sf.Name, decl)
+		var psorts []string
+		for _, p := range sf.Params {
+			psorts = append(psorts, enc.sortOf(c.resolveType(p.T)))
+		}
+		allDecls := append(mdecls, pdecls...)
+		allNames := append(mnames, pnames...)
+		decl := fmt.Sprintf("(declare-fun %s (%s) %s)", name, strings.Join(append(msorts, psorts...), " "), enc.sortOf(rt))
+		if len(allNames) == 0 {
+			decl += fmt.Sprintf("\n(assert (= %s %s))", name, body.T)
+		} else {
+			app := "(" + name + " " + strings.Join(allNames, " ") + ")"
+			decl += fmt.Sprintf("\n(assert (forall (%s) (! (= %s %s) :pattern (%s))))", strings.Join(allDecls, " "), app, body.T, app)
+		}
+		enc.addPre("fnspec:"+sf.Name, decl)
 	}
 	var ts []string
 	if info.inProgress {
@@ -605,8 +646,6 @@ func (c *SpecCtx) applyRecSpec(sf *SpecFunc, args []Val, rt types.Type) Val {
 		for _, m := range sortedKeys(info.formalSt.epoch.resolved) {
 			ts = append(ts, info.formalSt.epoch.resolved[m])
 		}
-		// memories first used after this occurrence would be missing; require reads before the recursive call
-		info.recCalls++
 	} else {
 		for _, m := range info.mems {
 			ts = append(ts, vc.memAtByName(c.st, m))
